@@ -160,13 +160,13 @@ def run_c11(tier):
     ]
     sums, vios = _native("C11", parts, tier)
     plan = [
-        ("strains", "", 16, 96, 30, 0.0),
+        ("strains", "", 16, 96, 20, 0.0),
         ("life15", "", 16, 96, 3, 0.0),
         ("consume", "", 16, 96, 4, 0.0),
         ("life02", "", 8, 48, 2, 0.0),
-        ("sliders", "", 16, 96, 12, 0.0),
-        ("builder", "", 8, 48, 6, 0.0),
-        ("edited", "", 16, 96, 4, 0.0),
+        ("sliders", "", 16, 96, 8, 0.0),
+        ("builder", "", 8, 48, 4, 0.0),
+        ("edited", "", 16, 96, 2, 0.0),
     ]
     msums, mvios, mstats = M.run("C11", _miri_jobs(plan, tier))
     return _finish("C11", tier, t0, sums, vios, msums, mvios, mstats, C11_RULE,
@@ -184,9 +184,9 @@ def run_c20(tier):
     ]
     sums, vios = _native("C20", parts, tier)
     plan = [
-        ("threads", "", 16, 96, 2, 0.05),
-        ("threads", "sync", 16, 96, 2, 0.05),
-        ("storm", "", 32, 192, 3, 0.1),
+        ("threads", "", 12, 96, 2, 0.05),
+        ("threads", "sync", 12, 96, 2, 0.05),
+        ("storm", "", 28, 192, 3, 0.1),
         ("storm", "sync", 0, 96, 3, 0.1),
     ]
     msums, mvios, mstats = M.run("C20", _miri_jobs(plan, tier))
